@@ -55,6 +55,9 @@ func escapeDNValue(v string) string {
 	if strings.HasPrefix(out, " ") || strings.HasPrefix(out, "#") {
 		out = `\` + out
 	}
+	if strings.HasSuffix(out, " ") {
+		out = out[:len(out)-1] + `\ ` // a trailing blank is part of the value only when escaped
+	}
 	return out
 }
 
